@@ -12,7 +12,7 @@ def dTok (j : Json) : Except String Tok :=
   | _ =>
     match j.getObjVal? "tree", j.getObjVal? "raised" with
     | .ok t, _ => (dTree t).map .tree
-    | _, .ok (.str s) => .ok (.raised s)
+    | _, .ok (.str s) => .ok (.codecError s)
     | _, _ => .error "bad tokenizer outcome"
 
 /-- tagged JSON: null | bool | {"i": int} | {"f": "text"} | {"s": str} | {"a": [..]} | {"o": [[k, v]..]} -/
